@@ -119,6 +119,46 @@ def closed_forms(ref):
                 D=D, enth=enth, sg=sg)
 
 
+def eulerian_case(_):
+    """Eulerian projections supplied directly (rho_n, press_n in the data, as
+    in the example notebook): the trace of T offered from them is
+    3 press_n - rho_n, whatever was requested before."""
+    from aurel.core import AurelCore
+    rel, _inp, ref = build('fluid')
+    cf = closed_forms(ref)
+    E, P = np.array(cf['E'], copy=True), np.array(cf['S'] / 3, copy=True)
+    base = {'alpha': ref['alpha'], 'betaup3': ref['beta'],
+            'gammadown3': ref['g']}
+    bad = []
+    for first in (None, 'gammadet', 'Stresstrace_n', 'st_Ricci_down3',
+                  'rho'):
+        try:
+            with quiet():
+                r2 = AurelCore(ref['fd'], verbose=False, Lambda=LAMBDA,
+                               clear_cache_every_nbr_calc=10 ** 9)
+                r2.data.update(base)
+                r2.data['rho_n'], r2.data['press_n'] = E, P
+                r2.freeze_data()
+                if first:
+                    r2[first]
+                got = np.asarray(r2['Ttrace'])
+                got2 = np.asarray(r2.Ttrace()) if 'Tdown4' not in r2.data \
+                    else got
+        except Exception as ex:      # noqa: BLE001
+            bad.append(('eulerian-inputs:Ttrace:raised', str(first),
+                        repr(ex)[:100]))
+            continue
+        want = 3 * P - E
+        sc = 1e-12 * (1 + np.abs(E) + 3 * np.abs(P))
+        if 'Tdown4' in r2.data and first is not None:
+            continue     # T was built by the earlier request: other branch
+        if np.any(np.abs(got - want) > sc) or np.any(
+                np.abs(got2 - want) > sc):
+            bad.append(('eulerian-inputs:Ttrace', str(first),
+                        float(np.abs(got - want).max())))
+    return bad
+
+
 def run_style(style):
     try:
         return _run_style(style)
@@ -315,6 +355,9 @@ def main(tier):
     run = runner.Run(PID, tier, "exploration")
     res = runner.pmap(run_style, STYLES, workers=4)
     total = 0
+    for b in runner.pmap(eulerian_case, [0], workers=1)[0]:
+        run.violation(f"C09:{b[0]}:after-{b[1]}", f"{b}"[:300],
+                      {'eulerian': b[1]})
     for r in res:
         total += r['checks'] * r['points']
         run.seen(r['style'])
